@@ -31,3 +31,10 @@ func VerifC01ComputePriority(hash common.Hash, j int64) common.Hash {
 func VerifC01VerifyHeader(s *Server, chain consensus.ChainReader, header *types.Header, parents []*types.Header, seal bool) error {
 	return s.verifyHeader(chain, header, parents, seal)
 }
+
+// VerifC01CacheSizes: capacities of the LRU caches the vote verification path goes through
+// (BlsVerifier.blsPubKeyCache, blsSigCache, vrfPkCache), in that order.
+func VerifC01CacheSizes(v *BlsVerifier) [3]int {
+	_ = v
+	return [3]int{blsCacheSize, blsCacheSize, blsCacheSize}
+}
